@@ -801,3 +801,27 @@ Lemma request_example :
   let r := fold_left rstep evs rinit in
   p_free (r_pool r) = [1] /\ r_lost r = 1 /\ p_next (r_pool r) = 2 /\ r_unheld r = false.
 Proof. vm_compute. repeat split; reflexivity. Qed.
+
+(* ================================================================================================================ *)
+(* non-vacuity examples for the theorems of the first round                                                          *)
+(* ================================================================================================================ *)
+Definition done_val (s : tstate nat nat) : option nat := match s with Done lo => lres lo | _ => None end.
+(* the translated body of DaskLazyIndexer.dataset, two threads, an interleaved schedule: both return f s0, one initialisation *)
+Lemma lazy_init_example :
+  let c := exec nat nat Datatypes.S site_dask (mkSh None (Some 41) 0) [0; 1; 0; 1; 0; 0; 1; 0; 0; 0; 0; 0; 0; 1; 1; 1; 1; 1; 1; 1; 1; 1; 1] in
+  done_val (c_th c 0) = Some 42 /\ done_val (c_th c 1) = Some 42 /\ ncomp (c_sh c) = 1 /\ c_lock c = None.
+Proof. vm_compute. repeat split; reflexivity. Qed.
+(* the translated pool: three threads, gets and puts interleaved: two items made, both free at the end, none lent twice *)
+Lemma pool_example :
+  let p := fold_left pool_step [PGet 0; PGet 1; PPut 0; PGet 2; PPut 1; PPut 2] pool_init in
+  p_next p = 2 /\ p_held p = [] /\ List.length (p_free p) = 2 /\ p_err p = false.
+Proof. vm_compute. repeat split; reflexivity. Qed.
+(* a diamond graph, two workers, tasks finishing out of order: all done, same results as the one-worker schedule *)
+Definition gdia : graph nat := [mkTask [] (fun _ => 3); mkTask [0] (fun l => 10 + fold_left Nat.add l 0);
+                                mkTask [0] (fun l => 20 + fold_left Nat.add l 0); mkTask [1; 2] (fun l => fold_left Nat.mul l 1)].
+Lemma sched_example :
+  let es := [Start 0 0; Finish 0; Start 1 2; Start 0 1; Finish 1; Finish 0; Start 1 3; Finish 1] in
+  wf nat gdia = true /\ all_done nat gdia (crun nat gdia es) = true /\
+  map (c_done (crun nat gdia es)) [0; 1; 2; 3] = [Some 3; Some 13; Some 23; Some 299] /\
+  map (seq_run nat gdia) [0; 1; 2; 3] = [Some 3; Some 13; Some 23; Some 299].
+Proof. vm_compute. repeat split; reflexivity. Qed.
